@@ -357,9 +357,22 @@ def _load(ctx, s, crlf=False, fname=None):
     with open(f, "wb") as fh:
         fh.write(render_top(s, crlf=crlf).encode("ascii"))
     try:
-        return MoleculeTop(f)
+        mol = MoleculeTop(f)
     finally:
         os.unlink(f)
+    # the topology loaded from a path must be the one just written there (the decoy load above makes a per-path memo
+    # answer with the decoy — seed C15-2); everything below assumes it, so say it instead of crashing on an index
+    want = [(a_[0], a_[1], a_[2]) for a_ in s["atoms"]]
+    got = [(a.name, a.resname, a.resid) for a in mol.atoms]
+    if got != want:
+        ctx.oracle_fail("load:topology-differs-from-the-file-just-written", {"kind": "top-spec", "spec": s},
+                        {"got": got[:6], "want": want[:6]})
+        raise LoadMismatch()
+    return mol
+
+
+class LoadMismatch(Exception):
+    pass
 
 
 def _apply_edit(mol, e):
@@ -387,6 +400,14 @@ def _apply_edit(mol, e):
 
 
 def eval_c15(ctx, case):
+    try:
+        return _eval_c15(ctx, case)
+    except LoadMismatch:
+        ctx.case(case, nontrivial=False)
+        return None
+
+
+def _eval_c15(ctx, case):
     kind = case["kind"]
     if kind == "eq":
         return _eval_eq(ctx, case)
